@@ -72,9 +72,11 @@ example : eqC (.binop .lt (rd sJ) (rd sN)) (.binop .le (.binop .add (rd sJ) (num
     assertions hold), the call and the inlined statements, run in a scope of their own, agree:
     both fail, or both succeed with the same state.
 
-    `_partial`: `inline` (hence the theorem) covers callee bodies without nested calls and
-    actuals that are control expressions, whole buffers or windows (`y[i]` passed as a scalar is
-    not covered — `replace` never produces it).  Well-formedness needed (`inlineWf`, a decidable
+    `_partial`: `inline` (hence the theorem) covers actuals that are control expressions, whole
+    buffers or windows; a point access `y[i]` passed for a scalar formal is not covered
+    (`replace` never produces it, and the real `DoInline` asserts when such a formal is written).
+    Callee bodies are arbitrary (loops, branches, allocations, window statements, configuration
+    reads and writes, nested calls).  Well-formedness needed (`inlineWf`, a decidable
     syntactic condition; the driver evaluates it on every real instance): formals pairwise
     distinct; no formal mentioned by an actual; no actual reads the configuration; every name
     bound in the callee's body (loop variable, allocation, window) is fresh where it is bound:
